@@ -563,7 +563,7 @@ func readableModel(m map[string]string) map[string]string {
 
 // scheduleDependent: assertion ids whose counterexamples depend on the goroutine schedule, not only on the input.
 func scheduleDependent(aid string) bool {
-	return strings.Contains(aid, "noleak") || strings.HasPrefix(aid, "deadlock@") || strings.HasPrefix(aid, "race@") || strings.HasPrefix(aid, "C13.conc") || strings.HasPrefix(aid, "C11.stops") || strings.Contains(aid, "ctxerr") || strings.HasPrefix(aid, "C10.same/")
+	return strings.Contains(aid, "noleak") || strings.HasPrefix(aid, "deadlock@") || strings.HasPrefix(aid, "race@") || strings.HasPrefix(aid, "C13.conc") || strings.HasPrefix(aid, "C11.stops") || strings.Contains(aid, "ctxerr") || strings.HasPrefix(aid, "C10.same/") || strings.HasPrefix(aid, "C10.big.")
 }
 
 // evidenceBase: /verif, except in development runs against a scratch copy (VERIF_REPO), whose evidence and
